@@ -176,6 +176,8 @@ structure Island (α : Type) where
   data : Px → Option α
   rms : Px → α
   curve : Px → Int
+  /-- the amplitude allowance `sampling` (≥ 1.05) the psf helper yields at each pixel -/
+  sampling : Px → α
 
 structure Params (α : Type) where
   inner : α
@@ -282,14 +284,15 @@ def belowInner (I : Island α) (s : Summit) (inner : α) : Bool :=
   | none => false
 
 def c095 : α := R.ofSci 95 true 2
-def c105 : α := R.ofSci 105 true 2
 
-/-- `(amp_min, amp_max)`, the two branches on `amp > 0` -/
-def ampBounds (amp r inner outer : α) : α × α :=
+/-- `(amp_min, amp_max)`, the two branches on `amp > 0`.  `samp` is the code's
+    `sampling = max(1.05, 2.0 ** (2.0 / pixbeam.b ** 2))` at the summit's peak pixel (the allowance for the
+    pixelisation loss; an input of the model: it comes from the psf helper and does not depend on sign) -/
+def ampBounds (amp r inner outer samp : α) : α × α :=
   if Cmp.lt zero amp then
-    (c095 * R.min (outer * r) amp, amp * c105 + inner * r)
+    (c095 * R.min (outer * r) amp, amp * samp + inner * r)
   else
-    (amp * c105 - inner * r, c095 * R.max ((-outer) * r) amp)
+    (amp * samp - inner * r, c095 * R.max ((-outer) * r) amp)
 
 /-- the sign-relevant content of one component's lmfit Parameters -/
 structure Comp (α : Type) where
@@ -311,7 +314,7 @@ def loop (P : Params α) (I : Island α) (neg : Bool) (isFlag : Nat) : Nat → L
     | some (p, amp) =>
       if belowInner I s P.inner then loop P I neg isFlag i rest
       else
-        let b := ampBounds amp (I.rms p) P.inner P.outer
+        let b := ampBounds amp (I.rms p) P.inner P.outer (I.sampling p)
         let maxxed := match P.maxSummits with
           | some m => decide (m ≤ i)
           | none => false
@@ -332,11 +335,12 @@ def estimate (P : Params α) (I : Island α) : Option (List (Comp α)) :=
 /-- what `_fit_island` hands to `estimate_lmfit_parinfo` for the island with box
     `[xmin,xmax) × [ymin,ymax)` and member test `mem` (island-box coordinates): the background-
     subtracted image restricted to the members, the rms box, and the cropped curvature map -/
-def mkIsland (imgH imgW xmin xmax ymin ymax : Nat) (img rms : Px → α) (mem : Px → Bool) : Island α :=
+def mkIsland (imgH imgW xmin xmax ymin ymax : Nat) (img rms samp : Px → α) (mem : Px → Bool) : Island α :=
   { h := xmax - xmin, w := ymax - ymin,
     data := fun p => if mem p then some (img (p.1 + xmin, p.2 + ymin)) else none,
     rms := fun p => rms (p.1 + xmin, p.2 + ymin),
-    curve := islandCurve imgH imgW xmin xmax ymin ymax img }
+    curve := islandCurve imgH imgW xmin xmax ymin ymax img,
+    sampling := fun p => samp (p.1 + xmin, p.2 + ymin) }
 
 /-- negation of a component: amplitude negated, bounds negated and swapped, the rest unchanged -/
 def negC (c : Comp α) : Comp α :=
